@@ -60,6 +60,8 @@ func run(c *lib.Ctx) error {
 func writeCases(c *lib.Ctx, terms []string) {
 	rounding, how := detectRounding()
 	c.Res.Notes = append(c.Res.Notes, "calcSegmentAvailabilityTime rounding read from the source: "+rounding+" ("+how+")")
+	catchup, how2 := detectCatchup()
+	c.Res.Notes = append(c.Res.Notes, "catch-up loop looks at lastSegNrToSend, read from the source: "+catchup+" ("+how2+")")
 	groups := map[string][]string{}
 	order := []string{"avail", "hand", "handbig", "sess"}
 	per := map[string]int{"avail": 400, "hand": 400, "handbig": 3, "sess": 45}
@@ -83,7 +85,7 @@ func writeCases(c *lib.Ctx, terms []string) {
 			if j > len(g) {
 				j = len(g)
 			}
-			defs := fmt.Sprintf("Definition mismatches := mismatches_r %s.\nDefinition model_view := model_view_r %s.\n", rounding, rounding)
+			defs := fmt.Sprintf("Definition mismatches := mismatches_r %s %s.\nDefinition model_view := model_view_r %s %s.\n", rounding, catchup, rounding, catchup)
 			content := lib.CasesFile("From Verif Require Import GoSem Timeline Ingest CorrC16.\n", "c16case", defs, g[i:j], "model_view")
 			c.WriteCases(fmt.Sprintf("cases_C16_%d.v", n), content)
 			n++
@@ -134,6 +136,58 @@ func detectRounding() (string, string) {
 					}
 				}
 			}
+			return true
+		})
+		return false
+	})
+	return found, how
+}
+
+// detectCatchup reads cmafIngester.start in the tree the harness was built from: does the catch-up
+// loop ("for deltaTime <= 0") pass the literal false as isLast to sendMediaSegments (the pinned
+// code: the duration is ignored while catching up) or an expression (the proposed repair)?
+func detectCatchup() (string, string) {
+	dir := app.VerifC16SourceDir()
+	fset := token.NewFileSet()
+	f, err := parser.ParseFile(fset, filepath.Join(dir, "cmaf-ingester.go"), nil, 0)
+	if err != nil {
+		return "false", "source not readable: " + err.Error()
+	}
+	found, how := "false", "catch-up loop not found"
+	ast.Inspect(f, func(n ast.Node) bool {
+		fd, ok := n.(*ast.FuncDecl)
+		if !ok || fd.Name.Name != "start" || fd.Body == nil {
+			return true
+		}
+		ast.Inspect(fd.Body, func(m ast.Node) bool {
+			fs, ok := m.(*ast.ForStmt)
+			if !ok || fs.Cond == nil {
+				return true
+			}
+			be, ok := fs.Cond.(*ast.BinaryExpr)
+			if !ok {
+				return true
+			}
+			if id, ok := be.X.(*ast.Ident); !ok || id.Name != "deltaTime" {
+				return true
+			}
+			how = "no call of sendMediaSegments in the catch-up loop"
+			ast.Inspect(fs.Body, func(k ast.Node) bool {
+				call, ok := k.(*ast.CallExpr)
+				if !ok || len(call.Args) != 4 {
+					return true
+				}
+				sel, ok := call.Fun.(*ast.SelectorExpr)
+				if !ok || sel.Sel.Name != "sendMediaSegments" {
+					return true
+				}
+				if id, ok := call.Args[3].(*ast.Ident); ok && id.Name == "false" {
+					found, how = "false", "isLast is the literal false"
+				} else {
+					found, how = "true", "isLast is computed from lastSegNrToSend"
+				}
+				return true
+			})
 			return true
 		})
 		return false
